@@ -25,6 +25,9 @@ PHYS = {'flux_surface': [0, 3, 1, 2], 'v_parallel': [0, 2, 1, 3], 'poloidal': [3
 LP = {'v_parallel_2d': [0, 2, 1], 'mode_solve': [1, 2, 0]}
 LV = {'v_parallel_1d': [0, 2, 1]}
 LPOL = {'poloidal': [2, 1, 0]}
+# swapper whose routes have up to 4 steps and cross from the 2-D group into the 1-D group at the end
+L4A = {'flux_surface2': [0, 3, 1, 2], 'v_parallel': [0, 2, 1, 3], 'poloidal': [3, 2, 1, 0]}
+L4B = {'flux_surface1': [0, 3, 1, 2], 'z_surface': [2, 3, 1, 0]}
 
 
 def cases(tier, seed):
@@ -54,6 +57,8 @@ def cases(tier, seed):
                         if save and dtype == 'float64' and g in (((1, 2),) if tier == 'quick' else ((1, 2), (2, 2))) and shape == shapes[kind][0] and (kind == 'swapper3' or tier == 'thorough'):
                             out.append({'kind': kind, 'shape': shape, 'grid': list(g), 'save': save, 'dtype': dtype, 'shared': True,
                                         'cost': 500 * g[0] * g[1]})
+    for g in ([(2, 2)] if tier == 'quick' else [(2, 2), (2, 3), (3, 2)]):
+        out.append({'kind': 'swapper4long', 'shape': [3, 4, 5, 4] if tier == 'quick' else [4, 5, 7, 6], 'grid': list(g), 'save': True, 'dtype': 'float64', 'cost': 2500})
     return out
 
 
@@ -75,6 +80,9 @@ def run_case(case):
     if case['kind'] == 'handler4':
         names = list(PHYS)
         start = 'flux_surface'
+    elif case['kind'] == 'swapper4long':
+        names = list(L4A) + list(L4B)
+        start = 'poloidal'
     else:
         names = list(LP) + list(LV) + list(LPOL)
         start = 'mode_solve'
@@ -102,6 +110,8 @@ def run_case(case):
             comm = MPI.COMM_WORLD
             if case['kind'] == 'handler4':
                 man = getLayoutHandler(comm, dict(PHYS), nprocs, eta)
+            elif case['kind'] == 'swapper4long':
+                man = LayoutSwapper(comm, [dict(L4A), dict(L4B)], [nprocs, nprocs[0]], eta, start)
             else:
                 man = LayoutSwapper(comm, [dict(LP), dict(LV), dict(LPOL)], [nprocs, nprocs[0], nprocs[1]], eta, start)
             g = Grid(eta, [None] * len(shape), man, start, comm, dtype=dtype, allocateSaveMemory=savemem)
